@@ -267,6 +267,20 @@ func mutants(n *node.Node, base *blockchain.Block, o node.BlockOpts, r *rand.Ran
 			return false
 		})
 	}
+	// honest in everything but the weight: real signatures of validators of that height at the right
+	// bit positions for the node's own block, together below the certificate threshold
+	for i := 0; i < 3; i++ {
+		hi := i%2 == 0
+		add("aggregateCommit:honest-signers-below-certificate-threshold", true, func(b *blockchain.Block) bool {
+			ac := n.UnderweightAggregate(hi, func(m int) []int { return r.Perm(m) })
+			if ac == nil {
+				return false
+			}
+			b.Header.AggregateCommit = ac
+			reseal(n, b, key)
+			return true
+		})
+	}
 	garbageSig := bytes.Repeat([]byte{0xab}, 96)
 	add("aggregateCommit:garbage-signature", true, func(b *blockchain.Block) bool {
 		if precommitted <= certified {
@@ -359,7 +373,16 @@ func mutants(n *node.Node, base *blockchain.Block, o node.BlockOpts, r *rand.Ran
 		"no-signatures":             func(tx *blockchain.Transaction) { tx.Signatures = []codec.Hex{} },
 		"signature-length-63":       func(tx *blockchain.Transaction) { tx.Signatures = []codec.Hex{tx.Signatures[0][:63]} },
 		"module-not-alphanumeric":   func(tx *blockchain.Transaction) { tx.Module = "ver-if" },
-		"params-above-14KiB":        func(tx *blockchain.Transaction) { tx.Params = append([]byte{0, 0}, make([]byte, 14*1024)...) },
+		// letters and digits outside [a-zA-Z0-9] are not alphanumeric in the protocol's sense
+		"module-not-alphanumeric:latin-diacritic":    func(tx *blockchain.Transaction) { tx.Module = "v\u00e9rif" },
+		"module-not-alphanumeric:cyrillic":           func(tx *blockchain.Transaction) { tx.Module = "\u0432\u0435rif" },
+		"module-not-alphanumeric:cjk":                func(tx *blockchain.Transaction) { tx.Module = "\u6a21\u5757" },
+		"module-not-alphanumeric:arabic-indic-digit": func(tx *blockchain.Transaction) { tx.Module = "verif\u0663" },
+		"module-not-alphanumeric:full-width-latin":   func(tx *blockchain.Transaction) { tx.Module = "\uff56erif" },
+		"module-not-alphanumeric:space":              func(tx *blockchain.Transaction) { tx.Module = "ver if" },
+		"command-not-alphanumeric:greek":             func(tx *blockchain.Transaction) { tx.Command = "tr\u03b1nsfer" },
+		"command-not-alphanumeric:underscore":        func(tx *blockchain.Transaction) { tx.Command = "trans_fer" },
+		"params-above-14KiB":                         func(tx *blockchain.Transaction) { tx.Params = append([]byte{0, 0}, make([]byte, 14*1024)...) },
 	}
 	for name, f := range static {
 		f := f
@@ -563,6 +586,7 @@ func tieBreakCase(k *mon.Case) {
 		k.Count("tiebreak_valid_sibling_switched", 1)
 	} else {
 		k.Count("tiebreak_valid_sibling_kept", 1)
+		k.Count("tiebreak_valid_sibling_kept:"+errClass(err), 1)
 		k.Inconclusive("tiebreak-valid-sibling-not-adopted")
 	}
 }
@@ -648,6 +672,7 @@ func main() {
 					after := take(n)
 					evs := n.TakeEvents()
 					k.Count("mutants_"+p, 1)
+					k.Count("mutant_class:"+m.class, 1)
 					wit := map[string]any{"rule": m.class, "path": p, "state_height": before.height, "block": node.DescribeBlock(m.b), "error": fmt.Sprint(perr)}
 					if m.class == "timestamp:future-slot" && n.Slot.GetSlotNumber(m.b.Header.Timestamp) <= n.Slot.GetSlotNumber(uint32(time.Now().Unix())) {
 						k.Inconclusive("future-slot-mutant-overtaken-by-the-clock")
